@@ -560,6 +560,12 @@ func (g *c38G) stmt(d int, ind string) string {
 			if !g.wild && strings.Count(b, "\n") < 2 {
 				b = "{\n" + ind + "    foo()\n" + ind + "}"
 			}
+			if g.r.Chance(35) {
+				// an else block whose FIRST statement is an if and which has further statements
+				// (must not be printed with the `else if` shorthand)
+				inner := ind + "    "
+				b = "{\n" + inner + "if " + g.ifTest(ed) + " " + g.block(d-1, inner, false) + "\n" + inner + "foo()\n" + ind + "}"
+			}
 			s += " else " + b
 		}
 		return s
